@@ -5,6 +5,7 @@ package mimetype
 import (
 	"fmt"
 	"strconv"
+	"strings"
 )
 
 func (g *vfGen) runMore16(slice string) bool { return false }
@@ -35,8 +36,69 @@ func vfExecMore16(f []string, op string) (string, bool) {
 		d2 := Detect(data)
 		c2 := vfChain(d2)
 		return fmt.Sprintf("%s => %s %s %s", op, c1, c2, vfBit(before == after)), true
+	case "trace": // trace hex lim : the detectors Detect consults, in order, with their verdicts
+		data := vfUnhex(f[1])
+		lim64, _ := strconv.ParseUint(f[2], 10, 32)
+		lim := uint32(lim64)
+		SetLimit(lim)
+		mu.Lock()
+		nodes := root.flatten()
+		saved := make([]func([]byte, uint32) bool, len(nodes))
+		var log []string
+		for i, n := range nodes {
+			saved[i] = n.detector
+			i, d := i, n.detector
+			n.detector = func(raw []byte, l uint32) bool {
+				v := d(raw, l)
+				log = append(log, fmt.Sprintf("%d:%s", i, vfBit(v)))
+				return v
+			}
+		}
+		mu.Unlock()
+		restore := func() {
+			mu.Lock()
+			for i, n := range nodes {
+				n.detector = saved[i]
+			}
+			mu.Unlock()
+		}
+		res := ""
+		func() {
+			defer restore()
+			defer func() {
+				if r := recover(); r != nil {
+					res = "PANIC"
+				}
+			}()
+			in, _ := vfExact(data)
+			res = vfChain(Detect(in))
+		}()
+		hdr, _ := vfExact(vfHeader(data, lim))
+		var vb strings.Builder
+		for _, n := range nodes {
+			vb.WriteString(vfSafeDet(n.detector, hdr, lim)[:1])
+		}
+		lg := "~"
+		if len(log) > 0 {
+			lg = strings.Join(log, ",")
+		}
+		return fmt.Sprintf("%s => %s %s %s", op, vb.String(), lg, res), true
 	}
 	return "", false
+}
+
+func (g *vfGen) genTrace() {
+	ins := g.overlayInputs()
+	for k, in := range ins {
+		if k%3 == 0 || len(in) < 64 {
+			g.emit(vfOp("trace", in, []uint32{0, 3072, uint32(1 + g.intn(len(in)+1))}[g.intn(3)]))
+		}
+	}
+	for _, c := range vfCorpus() {
+		if len(c) <= 8192 {
+			g.emit(vfOp("trace", c, 0))
+		}
+	}
 }
 
 func (g *vfGen) genResExt() {
